@@ -480,6 +480,58 @@ Proof. exact complete_grid_simpson_exact. Qed.
 Print Assumptions C11_simpson_container_accepted.
 Print Assumptions C11_complete_grid_simpson_exact_degree.
 
+(* ==================================================================================================================
+   ALIGNMENT (Proofs/RombergAligned.v): the keys of the collected weight dictionary are EXACTLY the grid points in grid
+   order - for EVERY grid the model accepts, every grouping, slice version, container version and balancing flag.  So the
+   list returned by get_weights is aligned with the grid and the former per-case checker dict_keys_equal_grid is a theorem. *)
+From SG Require Import Proofs.RombergAligned.
+(* --- (1) for ARBITRARY level vectors the last pair of the support sequence of slice i is (i, i+1) *)
+Theorem C11_support_sequence_last_pair : forall levels i fuel start stop,
+  (stop - start <= fuel)%nat -> (start <= i < stop)%nat -> (stop <= length levels)%nat ->
+  last ((start, stop) :: supp_rec fuel levels start stop i) (0%nat, 0%nat) = (i, S i).
+Proof. exact supp_rec_last. Qed.
+(* --- (2) two strictly increasing lists with the same elements are equal; dictionaries keep their keys strictly increasing *)
+Theorem C11_strictly_increasing_lists_equal : forall l1 l2, ssorted l1 -> ssorted l2 -> (forall x, In x l1 <-> In x l2) -> l1 = l2.
+Proof. exact ssorted_same_elements. Qed.
+Theorem C11_dict_keys_strictly_increasing : forall cs,
+  ssorted (map fst (dict_of cs)) /\ forall x, In x (map fst (dict_of cs)) -> In x (map fst cs).
+Proof. exact dict_of_props. Qed.
+(* --- the dictionary keys are the grid *)
+Theorem C11_dict_keys_are_grid : forall lo g sv cv force grid levels r,
+  extrapolation_grid_from lo g sv cv force grid levels = Some r -> map fst (er_dict r) = er_grid r.
+Proof. exact dict_keys_are_grid. Qed.
+(* --- the RETURNED weight list (not only the dictionary): one weight per grid point, total b - a, exact first moment, on every
+       accepted adaptive grid: default containers with every grouping, the repaired Simpson containers with every grouping,
+       UNIT grouping with either container version; both slice versions, with or without forced balancing *)
+Theorem C11_returned_weights_consistent : forall lo g sv force grid levels r,
+  extrapolation_grid_from lo g sv CV_Default force grid levels = Some r ->
+  length (er_weights r) = length (er_grid r) /\
+  sumQ (er_weights r) = grid_b r - grid_a r /\ dotQ (er_grid r) (er_weights r) = half_sq (grid_a r) (grid_b r).
+Proof. exact returned_weights_consistent. Qed.
+Theorem C11_returned_weights_consistent_simpson : forall g sv force grid levels r,
+  extrapolation_grid_from 1 g sv CV_Simpson force grid levels = Some r ->
+  length (er_weights r) = length (er_grid r) /\
+  sumQ (er_weights r) = grid_b r - grid_a r /\ dotQ (er_grid r) (er_weights r) = half_sq (grid_a r) (grid_b r).
+Proof. exact returned_weights_consistent_simpson. Qed.
+Theorem C11_returned_weights_consistent_unit : forall lo sv cv force grid levels r,
+  extrapolation_grid_from lo G_Unit sv cv force grid levels = Some r ->
+  length (er_weights r) = length (er_grid r) /\
+  sumQ (er_weights r) = grid_b r - grid_a r /\ dotQ (er_grid r) (er_weights r) = half_sq (grid_a r) (grid_b r).
+Proof. exact returned_weights_consistent_unit. Qed.
+(* ... and every power moment of the returned list is that of the dictionary (so all degree theorems above hold for the list) *)
+Theorem C11_returned_power_moment : forall lo g sv cv force grid levels r k,
+  extrapolation_grid_from lo g sv cv force grid levels = Some r ->
+  dotQ (map (pw k) (er_grid r)) (er_weights r) = wpow k (er_dict r).
+Proof. exact returned_power_moment. Qed.
+Print Assumptions C11_dict_keys_are_grid.
+Print Assumptions C11_returned_weights_consistent.
+Print Assumptions C11_returned_power_moment.
+(* non-vacuity: the adaptive grid of the repo's own test, GROUPED_OPTIMIZED with forced balancing: accepted, 7 aligned weights *)
+Example C11_nonvacuous_aligned :
+  match extrapolation_grid G_Optimized SV_Romberg CV_Default true [0; q 1 2; q 5 8; q 3 4; 1] [0; 1; 3; 2; 0]%nat with
+  | Some r => Nat.eqb (length (er_weights r)) 7 && Nat.eqb (length (er_grid r)) 7 | None => false end = true.
+Proof. vm_compute. reflexivity. Qed.
+
 (* non-vacuity: depth 3 on [-3/4, 5/4], GROUPED_OPTIMIZED with forced balancing: one container of 8 slices, keys aligned *)
 Example C11_nonvacuous_exact_degree :
   match extrapolation_grid_from 0 G_Optimized SV_Romberg CV_Default true
